@@ -333,6 +333,13 @@ class is_flag_active_visitor<Flag, flag_and>""")]),
  dict(name='fct-clang-branch-reversed', prop='C01', rule='C01.plan', edits=[('include/boost/msm/backmp11/favor_compile_time.hpp', """                value_array<init_cell_constants> value_array;
                 for (const init_cell_value& value: value_array.value)""", """                value_array<mp11::mp_reverse<init_cell_constants>> value_array;
                 for (const init_cell_value& value: value_array.value)""")]),
+ dict(name='revert-d26-mp11-pool-reset-after-own-entry', prop='C04', rule='C04.pool-reset', edits=[(MP, """        m_history.reset_event_pool(self(), event);
+        preprocess_entry(event, fsm);
+
+        state_entry_visitor<Event> visitor{self(), event};""", """        preprocess_entry(event, fsm);
+        m_history.reset_event_pool(self(), event);
+
+        state_entry_visitor<Event> visitor{self(), event};""")]),
  dict(name='revert-d20-puml-terminate-suffix', prop='C14', rule='C14.puml', edits=[('include/boost/msm/front/puml/puml.hpp', """cleanup_token(stt().substr(endl_before_pos + 1, arrow_pos - endl_before_pos - 1)) == state_name())""", """cleanup_token(stt().substr(state_pos, arrow_pos - state_pos)) == state_name())""")]),
  dict(name='flagfold-back11-early-break', prop='C17', rule='C17.pure', edits=[(B11, """            res = typename BinaryOp::type() (res,(*flags_entries[ m_states[i] ])(*this));""", """            res = typename BinaryOp::type() (res,(*flags_entries[ m_states[i] ])(*this));
             if (res) break;""")]),
